@@ -340,7 +340,11 @@ def run_vectors(case):
         out = homogeneous_transform(L.to(dt), v, vectors=True)
     if not torch.equal(v, v0):
         raise Violation("input_modified", "vector API modified its input")
-    scale = max(1e-30, float(np.abs(expect).max()), float(np.abs(va).max()) * float(np.abs(m.matrix(a, b, m2)[:, : m.D]).max()))
+    # deepali forms (world -> b) @ (a -> world) in float32: the rounding error of that product is bounded
+    # component-wise by eps * |B| |A| |v| (not by the magnitude of the possibly cancelling result)
+    Aw = np.abs(m.matrix(a, "world")[:, : m.D])
+    Bw = np.abs(m2.matrix("world", b)[:, : m.D])
+    scale = max(1e-30, float(np.abs(expect).max()), float((np.abs(va) @ Aw.T @ Bw.T).max()))
     bound = K * eps * scale
     exp_shaped = shape_points(expect, case["form"])
     if tuple(out.shape) != exp_shaped.shape:
